@@ -303,6 +303,8 @@ DETS = [
     ({"q": {"f1|neq": "a"}, "r": {"f2|neq": ["b", "c"]}, "s": {"f3|contains|neq": "d*"}}, ["q", "not q", "q and r", "r", "not r or s", "s", "q or not s"]),
     # single-character wildcards next to the wildcards that select the startswith / endswith / contains operators
     ({"s": {"f1|startswith": "fo?o", "f2": "*a?b", "f3|contains": "x?y", "f4|cased|endswith": "p?q"}, "t": {"f5": "?ab*", "f6": "*ab?", "f7|cased": "*a?*"}}, ["s", "not s", "s and t", "not t", "s or not t"]),
+    # several conditions in one rule that use the same detections with different negation
+    ({"s": {"f1": "a"}, "t": {"f2": "b", "f3|contains": "c"}}, [("s and not t", "s and t"), ("not s", "s", "t and not s"), ("s or not t", "not (s or t)", "t")]),
 ]
 
 
@@ -332,12 +334,14 @@ class C01Bounded(Bounded):
                 continue
             B = make_backend(*cfg)
             NATIVE_CIDR[0] = cfg[6]
-            for cond in conds:
+            # a tuple of conditions is a rule with several conditions (they share the detection objects): query i is compared with condition i
+            flat = [(c, None, None) for c in conds if not isinstance(c, tuple)] + [(c, t, i) for t in conds if isinstance(t, tuple) for i, c in enumerate(t)]
+            for cond, group, gi in flat:
                 ev += 1
-                doc = {"title": "t", "logsource": {"category": "c"}, "detection": {**copy.deepcopy(det), "condition": cond}}
-                sig = f"{di}:{cond}:{'/'.join(cfg[0])}:{int(cfg[1])}{int(cfg[2])}{int(cfg[3])}{int(cfg[4])}{int(cfg[5])}" + ("" if cfg[6] else ":nocidr")
+                doc = {"title": "t", "logsource": {"category": "c"}, "detection": {**copy.deepcopy(det), "condition": cond if group is None else list(group)}}
+                sig = f"{di}:{cond if group is None else ' || '.join(group) + '#' + str(gi)}:{'/'.join(cfg[0])}:{int(cfg[1])}{int(cfg[2])}{int(cfg[3])}{int(cfg[4])}{int(cfg[5])}" + ("" if cfg[6] else ":nocidr")
                 try:
-                    q = B().convert(SigmaCollection.from_dicts([copy.deepcopy(doc)]))[0]
+                    q = B().convert(SigmaCollection.from_dicts([copy.deepcopy(doc)]))[0 if group is None else gi]
                 except Exception as e:
                     kind = "error:" + type(e).__name__
                     seen[kind] = seen.get(kind, 0) + 1
